@@ -167,7 +167,11 @@ func compare(prop string, v *fw.V, in *drive.Inst, m *refsem.State, step int, ac
 		v.Violate("noflow-error-"+direction(expErr, gotErr), cls, "step %d (%s): no-effective-flow error traces for %v, reference expects %v", step, action, gotErr, expErr)
 		ok = false
 	}
-	if other := in.Nodes("Error"); len(other) > 0 {
+	if other := in.Nodes("Error"); len(other) != m.CondErrs {
+		if len(other) < m.CondErrs {
+			v.Violate("condition-error-trace-missing", cls, "step %d (%s): %d error traces, the reference evaluated conditions that cannot be evaluated %d times", step, action, len(other), m.CondErrs)
+			return false
+		}
 		l := in.Log(0)
 		msg := ""
 		for _, e := range l {
@@ -593,8 +597,10 @@ func RunStorm(prop string, c *Case, env *fw.Env, v *fw.V) *Result {
 	if e := m.RootEnds(); !reflect.DeepEqual(e, gotEnds) && !(len(e) == 0 && len(gotEnds) == 0) {
 		v.Violate("storm-ends", cls, "end events %v, reference %v", gotEnds, e)
 	}
-	if other := in.Nodes("Error"); len(other) > 0 {
-		v.Violate("unexpected-error-trace", "storm", "%d unexpected error traces", len(other))
+	if other := in.Nodes("Error"); len(other) > m.CondErrs {
+		v.Violate("unexpected-error-trace", "storm", "%d error traces, the reference evaluated conditions that cannot be evaluated %d times", len(other), m.CondErrs)
+	} else if len(other) < m.CondErrs {
+		v.Violate("condition-error-trace-missing", "storm", "%d error traces, the reference evaluated conditions that cannot be evaluated %d times", len(other), m.CondErrs)
 	}
 	final(prop, v, in, m, []*drive.Waiter{w}, q)
 	res.Complete = m.Complete()
